@@ -130,6 +130,9 @@ def shard(rec, tier, index, n_shards):
     for case in engine.medium_cases(rng, plan["medium"] // n_shards):
         rec.count("medium_size_cases")
         do(case)
+    for case in engine.wide_cases(rng, 8 if tier == "quick" else 300):
+        rec.count("wide_cases")
+        do(case)
     for case in engine.high_order_cases(rng, 6 if tier == "quick" else 400):
         rec.count("high_order_cases")
         do(case)
